@@ -16,6 +16,7 @@ def plan(t):
 
 
 def case(prog, params):
+    if params['ob'] == 'endpoint': return case_endpoint(prog, params)
     ex = H.new_executor(prog, max_block_visits=200, solver_timeout_ms=(600000 if H.tier() == 'quick' else 1500000))
     cons = []
     res = {'violations': [], 'inconclusive': [], 'samples': [], 'kinds': {}, 'compared': 0}
@@ -92,6 +93,45 @@ def case(prog, params):
     return res
 
 
+def case_endpoint(prog, params):
+    """the echo endpoints behind the whole connection pipeline (Server::process): a submitted field K=V must come back as
+    "K is V" in a 200 response, for a request that exactly fills the request buffer (pad=0) and for one that leaves room (pad>0)"""
+    import pipeline as PL
+    ex = PL.new_ex(prog)
+    cons = []
+    lo = lambda b: z3.And(z3.UGE(b, 97), z3.ULE(b, 122))
+    k = SymStr.fresh('k', 1, cons, exact_len=1, alphabet=lo); v = SymStr.fresh('v', params['vlen'], cons, exact_len=params['vlen'], alphabet=lo)
+    if params['method'] == 'GET':
+        reqb = SymStr.join([S('GET /form-get-method?'), k, S('='), v, S(' HTTP/1.1\r\n\r\n')], S(''))
+    else:
+        reqb = SymStr.join([S('POST /form-url-encoded-enctype-post-method HTTP/1.1\r\nContent-Type: application/x-www-form-urlencoded\r\n\r\n'), k, S('='), v], S(''))
+    expect = SymStr.join([k, S(' is '), v], S(''))
+    res = {'violations': [], 'inconclusive': [], 'samples': [], 'kinds': {}, 'compared': 0}
+
+    def w(m): return {'ob': 'endpoint', 'method': params['method'], 'pad': params['pad'], 'request': model_bytes(m, reqb).hex(), 'k': model_bytes(m, k).decode('latin1'), 'v': model_bytes(m, v).decode('latin1')}
+
+    def term(o):
+        kk = 'endpoint:' + outcome_kind(o.outcome); res['kinds'][kk] = res['kinds'].get(kk, 0) + 1
+        if o.outcome[0] != 'return':
+            _term(ex, o, res, 'endpoint', w); return
+        ws = PL.written_responses(o)
+        if not ws:
+            r, m = ex.check(o.pc)
+            if r == 'sat': res['violations'].append({'key': 'C17:endpoint-%s-no-response' % params['method'], 'text': 'no response written', 'witness': w(m)})
+            return
+        data = ws[0][0]; res['compared'] += 1
+        bad = b_or(b_not(data.starts_with(S('HTTP/1.1 200 '))), b_not(data.contains(expect)))
+        r, m = ex.check(o.pc, bad)
+        if r == 'unknown': res['inconclusive'].append({'status': 'solver-unknown', 'error': 'endpoint'})
+        if r == 'sat':
+            res['violations'].append({'key': 'C17:endpoint-%s-fields-not-echoed:%s' % (params['method'], 'request-fills-buffer-exactly' if params['pad'] == 0 else 'buffer-larger-than-request'),
+                                      'text': 'echo endpoint does not return the submitted field: %r -> %r' % (bytes.fromhex(w(m)['request']), model_bytes(m, data)[:60]), 'witness': w(m)})
+    PL.run_process(ex, reqb, cons, term, size=reqb.cap + params['pad'])
+    res.update(H.ex_summary(ex))
+    res['samples'].append({'case': params, 'kinds': res['kinds'], 'compared': res['compared']})
+    return res
+
+
 def _term(ex, o, res, where, wit):
     k = where + ':' + outcome_kind(o.outcome); res['kinds'][k] = res['kinds'].get(k, 0) + 1
     if o.outcome[0] == 'panic':
@@ -125,11 +165,22 @@ def main():
         cases.append(dict(ob='query', lens=lens, alphabet=al)); cases.append(dict(ob='form', lens=lens, alphabet=al))
     for al, lens in [('?a#/', (1, 2)), ('?a#/', (2, 1))]:
         cases.append(dict(ob='target', lens=lens, alphabet=al))
+    # the echo endpoints behind Server::process, request exactly filling the buffer / leaving room
+    for method in ('GET', 'POST'):
+        for pad in (0, 1) if chk.tier == 'quick' else (0, 1, 7):
+            for vlen in (1,) if chk.tier == 'quick' else (1, 2):
+                cases.append(dict(ob='endpoint', method=method, pad=pad, vlen=vlen))
     results = chk.run_cases(case, cases, label='encode/build -> decode/parse', case_timeout=1200 if chk.tier == 'quick' else 3000)
     chk.extra['results_compared'] = sum(r.get('compared', 0) for r in results)
 
     def replay(v):
         w = v['witness']
+        if w['ob'] == 'endpoint':
+            reqb = bytes.fromhex(w['request'])
+            st, out = chk.oracle.run([('process_seq', [len(reqb) + w['pad'], reqb])], env={'RWS_CONFIG_CORS_ALLOW_ALL': 'true'})[0]
+            raw = out[-1] if out else b''
+            ok = st == 'ok' and raw.startswith(b'HTTP/1.1 200 ') and ('%s is %s' % (w['k'], w['v'])).encode('latin1') in raw
+            return {'reproduced': not ok, 'native_status': st, 'native_head': raw[:40].decode('latin1')}
         if w['ob'] == 'component':
             st, out = chk.oracle.run([('uri_roundtrip', [w['s'].encode('latin1')])])[0]
             return {'reproduced': st != 'ok' or out[1].decode('latin1') != w['s'], 'native': (st, [x.decode('latin1') for x in out])}
